@@ -290,7 +290,7 @@ func compareObject(resp *s3c.Resp, want *ObjState, head bool) string {
 	if cl := resp.Get("Content-Length"); cl != fmt.Sprint(len(want.Data)) {
 		return fmt.Sprintf("Content-Length %q, want %d", cl, len(want.Data))
 	}
-	if et := resp.Get("ETag"); et != want.ETag && (want.AltETag == "" || et != want.AltETag) {
+	if et := resp.Get("ETag"); !etagEq(et, want.ETag) && (want.AltETag == "" || !etagEq(et, want.AltETag)) {
 		return fmt.Sprintf("ETag %s, want %s", et, want.ETag)
 	}
 	for _, n := range contentHeaderNames {
@@ -443,3 +443,7 @@ func envConn(fragMode int) *env.ConnOpts {
 	co.Marks = true
 	return co
 }
+
+// etagEq compares ETags as values; the statements speak of the MD5, not of
+// the quoting of the header.
+func etagEq(a, b string) bool { return strings.Trim(a, "\"") == strings.Trim(b, "\"") }
